@@ -509,11 +509,13 @@ func (f *Fabric) Close() {
 // ---- TCP proxy ------------------------------------------------------------------------
 
 type relay struct {
+	p      *Proxy
 	id     int
 	a, b   net.Conn
 	at     time.Duration
 	closed atomic.Bool
 	half   atomic.Bool // dialler side closed, target side kept open (stale)
+	frozen atomic.Bool // this connection has become a black hole (connections made later are not affected)
 }
 
 // Proxy relays x's outbound connections to y and records them.
@@ -586,7 +588,7 @@ func (p *Proxy) relay(c net.Conn) {
 		c.Close()
 		return
 	}
-	r := &relay{id: id, a: c, b: d, at: time.Since(p.f.start)}
+	r := &relay{id: id, a: c, b: d, at: time.Since(p.f.start), p: p}
 	p.mu.Lock()
 	if p.closed {
 		p.mu.Unlock()
@@ -597,13 +599,13 @@ func (p *Proxy) relay(c net.Conn) {
 	p.relays = append(p.relays, r)
 	p.mu.Unlock()
 	go func() {
-		p.pipe(d, c)
+		p.pipe(r, d, c)
 		if !r.half.Load() {
 			r.close()
 		}
 	}()
 	go func() {
-		p.pipe(c, d)
+		p.pipe(r, c, d)
 		if !r.half.Load() {
 			r.close()
 		}
@@ -612,13 +614,13 @@ func (p *Proxy) relay(c net.Conn) {
 
 // pipe copies src to dst; while the proxy is frozen (a black hole: the link is up, nothing gets
 // through, nobody is told) the bytes are held back.
-func (p *Proxy) pipe(dst, src net.Conn) {
+func (p *Proxy) pipe(r *relay, dst, src net.Conn) {
 	buf := make([]byte, 32*1024)
 	for {
 		n, err := src.Read(buf)
 		if n > 0 {
 			p.mu.Lock()
-			for p.frozen && !p.closed {
+			for (p.frozen || r.frozen.Load()) && !p.closed && !r.closed.Load() {
 				p.thaw.Wait()
 			}
 			p.mu.Unlock()
@@ -630,6 +632,20 @@ func (p *Proxy) pipe(dst, src net.Conn) {
 			return
 		}
 	}
+}
+
+// FreezeExisting turns the connections that exist now into black holes; later ones work.
+func (p *Proxy) FreezeExisting() int {
+	p.mu.Lock()
+	defer p.mu.Unlock()
+	n := 0
+	for _, r := range p.relays {
+		if !r.closed.Load() {
+			r.frozen.Store(true)
+			n++
+		}
+	}
+	return n
 }
 
 // SetFrozen turns the link into a black hole (or back): connections stay open, no byte gets through.
@@ -654,6 +670,11 @@ func (r *relay) close() {
 	if r.closed.CompareAndSwap(false, true) {
 		r.a.Close()
 		r.b.Close()
+		if r.p != nil {
+			r.p.mu.Lock()
+			r.p.thaw.Broadcast()
+			r.p.mu.Unlock()
+		}
 	}
 }
 
